@@ -1,38 +1,89 @@
-//! C33 harness (copied from sim.rs and extended): RECORDING listeners at every level.
-//! Changes w.r.t. sim.rs:
-//!   P / T / PUB / SUB / W / R accept  l=<0|1>  (install a recording listener)  and  m=<K,K,...>  (listener
-//!   mask; kinds IT ODM RDM OIQ RIQ SL SR DOR DA LL LC PM SM; `-` = empty);  T2 = topic of a second type
-//!   (same type NAME, different structure) to raise InconsistentTopic
-//!   SL <W|R|PUB|SUB|P> <idx> l= m=   set_listener after creation (create with old=1 to label the replaced listener OLD..)
-//!   Q <W|R> <idx> lb=<ns> dl=<ns>   set_qos (latency budget / deadline) after creation
-//!   netw <key>    deliver only the datagrams carrying DATA of the writer with that entity key (256 = SPDP)
-//!   jump <ns>     move the clock without visiting intermediate timer deadlines, then settle
-//!   ev            print and clear the recorded listener calls: `ev <label>:<kind>:<count> ...` (sorted);
-//!                 labels P<i> PUB<i> SUB<i> W<i> R<i> T<i> (creation index of the entity owning the listener)
-//! Scenario interpreter over the simulated stack (see vh::sim).  One scenario per
-//! stdin line, ops separated by ';'.  Because the factory owns a process-wide static
-//! channel, every scenario runs in a fresh child process (`sim --one`).
+//! C06 — no datagram can crash, hang or exhaust a running participant.
+//! COPY of bin/sim.rs (scenario interpreter over vh::sim) plus the C06 driver:
 //!
-//! ops (indices refer to creation order of each entity kind, starting at 0):
-//!   cfg frag=<n> tag=<s> ann=<ms>           (before creating participants)
-//!   P <domain>                               create participant
-//!   T <p> <name>                             create topic (type KeyedData)
-//!   PUB <p> | SUB <p>
-//!   W <pub> <topic> k=v...                   rel dur hist ms mi mspi dl ls mbt own str en
-//!   R <sub> <topic> k=v...                   rel dur hist ms mi mspi dl own sep ord
-//!   w <writer> <key> <len> <seed> [ts_ns]    write          d / u <writer> <key>  dispose / unregister
-//!   t <reader> <max> | r <reader> <max>      take / read (any state)
-//!   adv <ns>                                 advance simulated time
-//!   net [max]                                deliver in-flight datagrams (fault rules apply)
-//!   fault <drop|dup|hold> <kind> <sn> <frag> <times>   rule on USER traffic (kind DATA DATA_FRAG HEARTBEAT ACKNACK GAP NACK_FRAG ANY; -1 = any)
-//!   rel                                      release held datagrams
-//!   wfa <writer> <budget_ns>                 wait_for_acknowledgments
-//!   wfh <reader> <budget_ns>                 wait_for_historical_data
-//!   pm <writer> | sm <reader>                matched statuses
-//!   delays                                   count and maximum of the timer delays requested so far
-//!   delW <w> | delR <r> | delPUB <i> | delSUB <i> | delT <i> | delP <i> | delall <p>
-//!   inject <p> <meta 0|1> <hex>              hand a raw datagram to participant p
-//!   sent                                     summary of user datagrams sent since the last `sent`
+//! one case per stdin line:   <k=v knobs> | <hex datagram> <hex datagram> ...
+//!   knobs: frag (fragment size, default 1344)  a / m / j (samples written by the healthy
+//!          peer's writer, by the victim's writer, by the spoofed participant's writer before
+//!          the injection)  rel (victim reader reliable 1 / best effort 0)  probe (1 = run the
+//!          liveness probe)  cap (1 = print the captured setup traffic incl. metatraffic and stop)
+//!   scenario: three participants on one topic, each with one writer and one reader:
+//!          0 = healthy peer H, 1 = victim V, 2 = participant S whose identity the injected
+//!          datagrams may claim.  After discovery and the writes every in-flight datagram is
+//!          delivered (quiescent), the user traffic of the setup is printed (`LOG from>to:hex`),
+//!          then each datagram is handed to V's transport receiver (all worker stages run), the
+//!          datagrams V sends in reaction are recorded and DROPPED (V's state only depends on
+//!          the injected datagrams), finally the liveness probe runs with a normal network.
+//!   output (one line):  LOG ... | D0 OK <bytes requested> <peak> <micros> <hex,hex|-> | D1 ... | PROBE hv=1 vh=1 api=1 wake=1 | END
+//!          a panic ends the line with `PANIC <file>:<line>` (panic hook of the child), a request
+//!          of more than 1 GiB from the allocator with `OOM <bytes>`, the wall-clock watchdog of
+//!          the parent with `HANG`.
+//! Every case runs in a fresh child process (`c06 --one`), because the factory owns a
+//! process-wide static channel; a watchdog thread of the child ends a datagram that takes longer than `lim` ms (knob, default 6000) with `HANG`;
+//! the parent kills a child after `C06_LIMIT_S` (default 120) seconds as a backstop.
+use std::alloc::{GlobalAlloc, Layout, System};
+use std::sync::atomic::{AtomicUsize, Ordering::Relaxed};
+
+struct Counting;
+static TOTAL: AtomicUsize = AtomicUsize::new(0);
+static LIVE: AtomicUsize = AtomicUsize::new(0);
+static PEAK: AtomicUsize = AtomicUsize::new(0);
+const TRAP: usize = 1 << 30;
+
+fn trap(n: usize) -> ! {
+    // no allocation, no locks: raw write to fd 1, then abort
+    use std::io::Write;
+    use std::os::fd::FromRawFd;
+    let mut buf = [0u8; 40];
+    let mut i = buf.len();
+    buf[i - 1] = b'\n';
+    i -= 1;
+    let mut v = n;
+    loop {
+        i -= 1;
+        buf[i] = b'0' + (v % 10) as u8;
+        v /= 10;
+        if v == 0 {
+            break;
+        }
+    }
+    let mut f = unsafe { std::fs::File::from_raw_fd(1) };
+    let _ = f.write_all(b"\nOOM ");
+    let _ = f.write_all(&buf[i..]);
+    std::process::abort();
+}
+fn on_alloc(n: usize) {
+    if n > TRAP {
+        trap(n);
+    }
+    TOTAL.fetch_add(n, Relaxed);
+    let l = LIVE.fetch_add(n, Relaxed) + n;
+    if l > 3 * TRAP {
+        trap(l);
+    }
+    PEAK.fetch_max(l, Relaxed);
+}
+unsafe impl GlobalAlloc for Counting {
+    unsafe fn alloc(&self, l: Layout) -> *mut u8 {
+        on_alloc(l.size());
+        unsafe { System.alloc(l) }
+    }
+    unsafe fn alloc_zeroed(&self, l: Layout) -> *mut u8 {
+        on_alloc(l.size());
+        unsafe { System.alloc_zeroed(l) }
+    }
+    unsafe fn dealloc(&self, p: *mut u8, l: Layout) {
+        LIVE.fetch_sub(l.size(), Relaxed);
+        unsafe { System.dealloc(p, l) }
+    }
+    unsafe fn realloc(&self, p: *mut u8, l: Layout, new: usize) -> *mut u8 {
+        on_alloc(new);
+        LIVE.fetch_sub(l.size(), Relaxed);
+        unsafe { System.realloc(p, l, new) }
+    }
+}
+#[global_allocator]
+static A: Counting = Counting;
+
 use dust_dds::dds_async::data_reader::DataReaderAsync;
 use dust_dds::dds_async::data_writer::DataWriterAsync;
 use dust_dds::dds_async::domain_participant::DomainParticipantAsync;
@@ -50,15 +101,7 @@ use dust_dds::infrastructure::sample_info::{
 use dust_dds::infrastructure::time::{Duration, DurationKind, Time};
 use dust_dds::infrastructure::type_support::DdsType;
 use dust_dds::rtps_messages::overall_structure::{RtpsMessageRead, RtpsSubmessageReadKind};
-use dust_dds::dds_async::data_reader_listener::DataReaderListener;
-use dust_dds::dds_async::data_writer_listener::DataWriterListener;
-use dust_dds::dds_async::domain_participant_listener::DomainParticipantListener;
-use dust_dds::dds_async::publisher_listener::PublisherListener;
-use dust_dds::dds_async::subscriber_listener::SubscriberListener;
-use dust_dds::dds_async::topic_listener::TopicListener;
-use dust_dds::infrastructure::status::*;
-use std::collections::{BTreeMap, HashMap};
-use std::sync::{Arc, Mutex};
+use std::collections::HashMap;
 use std::io::{BufRead, Write};
 use vh::sim::{Packet, Sim, SimRuntime, SimTransport};
 
@@ -67,110 +110,6 @@ struct KeyedData {
     #[dust_dds(key)]
     id: u8,
     value: Vec<u8>,
-}
-
-#[derive(DdsType, Debug, Clone, PartialEq)]
-struct OtherData {
-    #[dust_dds(key)]
-    id: u32,
-    a: i64,
-    b: String,
-}
-
-type Log = Arc<Mutex<Vec<(String, &'static str)>>>;
-/// listener that records (owner label, callback) into the shared log
-#[derive(Clone)]
-struct Rec {
-    log: Log,
-    label: String,
-}
-impl Rec {
-    fn push(&self, k: &'static str) {
-        self.log.lock().unwrap().push((self.label.clone(), k));
-    }
-}
-impl<Foo: Send + 'static> DataReaderListener<Foo> for Rec {
-    async fn on_data_available(&mut self, _r: DataReaderAsync<Foo>) { self.push("DA") }
-    async fn on_sample_rejected(&mut self, _r: DataReaderAsync<Foo>, _s: SampleRejectedStatus) { self.push("SR") }
-    async fn on_liveliness_changed(&mut self, _r: DataReaderAsync<Foo>, _s: LivelinessChangedStatus) { self.push("LC") }
-    async fn on_requested_deadline_missed(&mut self, _r: DataReaderAsync<Foo>, _s: RequestedDeadlineMissedStatus) { self.push("RDM") }
-    async fn on_requested_incompatible_qos(&mut self, _r: DataReaderAsync<Foo>, _s: RequestedIncompatibleQosStatus) { self.push("RIQ") }
-    async fn on_subscription_matched(&mut self, _r: DataReaderAsync<Foo>, _s: SubscriptionMatchedStatus) { self.push("SM") }
-    async fn on_sample_lost(&mut self, _r: DataReaderAsync<Foo>, _s: SampleLostStatus) { self.push("SL") }
-}
-impl<Foo: Send + 'static> DataWriterListener<Foo> for Rec {
-    async fn on_liveliness_lost(&mut self, _w: DataWriterAsync<Foo>, _s: LivelinessLostStatus) { self.push("LL") }
-    async fn on_offered_deadline_missed(&mut self, _w: DataWriterAsync<Foo>, _s: OfferedDeadlineMissedStatus) { self.push("ODM") }
-    async fn on_offered_incompatible_qos(&mut self, _w: DataWriterAsync<Foo>, _s: OfferedIncompatibleQosStatus) { self.push("OIQ") }
-    async fn on_publication_matched(&mut self, _w: DataWriterAsync<Foo>, _s: PublicationMatchedStatus) { self.push("PM") }
-}
-impl SubscriberListener for Rec {
-    async fn on_data_on_readers(&mut self, _s: SubscriberAsync) { self.push("DOR") }
-    async fn on_data_available(&mut self, _r: DataReaderAsync<()>) { self.push("DA") }
-    async fn on_sample_rejected(&mut self, _r: DataReaderAsync<()>, _s: SampleRejectedStatus) { self.push("SR") }
-    async fn on_liveliness_changed(&mut self, _r: DataReaderAsync<()>, _s: LivelinessChangedStatus) { self.push("LC") }
-    async fn on_requested_deadline_missed(&mut self, _r: DataReaderAsync<()>, _s: RequestedDeadlineMissedStatus) { self.push("RDM") }
-    async fn on_requested_incompatible_qos(&mut self, _r: DataReaderAsync<()>, _s: RequestedIncompatibleQosStatus) { self.push("RIQ") }
-    async fn on_subscription_matched(&mut self, _r: DataReaderAsync<()>, _s: SubscriptionMatchedStatus) { self.push("SM") }
-    async fn on_sample_lost(&mut self, _r: DataReaderAsync<()>, _s: SampleLostStatus) { self.push("SL") }
-}
-impl PublisherListener for Rec {
-    async fn on_liveliness_lost(&mut self, _w: DataWriterAsync<()>, _s: LivelinessLostStatus) { self.push("LL") }
-    async fn on_offered_deadline_missed(&mut self, _w: DataWriterAsync<()>, _s: OfferedDeadlineMissedStatus) { self.push("ODM") }
-    async fn on_offered_incompatible_qos(&mut self, _w: DataWriterAsync<()>, _s: OfferedIncompatibleQosStatus) { self.push("OIQ") }
-    async fn on_publication_matched(&mut self, _w: DataWriterAsync<()>, _s: PublicationMatchedStatus) { self.push("PM") }
-}
-impl TopicListener for Rec {
-    async fn on_inconsistent_topic(&mut self, _t: TopicAsync, _s: InconsistentTopicStatus) { self.push("IT") }
-}
-impl DomainParticipantListener for Rec {
-    async fn on_inconsistent_topic(&mut self, _t: TopicAsync, _s: InconsistentTopicStatus) { self.push("IT") }
-    async fn on_liveliness_lost(&mut self, _w: DataWriterAsync<()>, _s: LivelinessLostStatus) { self.push("LL") }
-    async fn on_offered_deadline_missed(&mut self, _w: DataWriterAsync<()>, _s: OfferedDeadlineMissedStatus) { self.push("ODM") }
-    async fn on_offered_incompatible_qos(&mut self, _w: DataWriterAsync<()>, _s: OfferedIncompatibleQosStatus) { self.push("OIQ") }
-    async fn on_sample_lost(&mut self, _r: DataReaderAsync<()>, _s: SampleLostStatus) { self.push("SL") }
-    async fn on_data_available(&mut self, _r: DataReaderAsync<()>) { self.push("DA") }
-    async fn on_sample_rejected(&mut self, _r: DataReaderAsync<()>, _s: SampleRejectedStatus) { self.push("SR") }
-    async fn on_liveliness_changed(&mut self, _r: DataReaderAsync<()>, _s: LivelinessChangedStatus) { self.push("LC") }
-    async fn on_requested_deadline_missed(&mut self, _r: DataReaderAsync<()>, _s: RequestedDeadlineMissedStatus) { self.push("RDM") }
-    async fn on_requested_incompatible_qos(&mut self, _r: DataReaderAsync<()>, _s: RequestedIncompatibleQosStatus) { self.push("RIQ") }
-    async fn on_publication_matched(&mut self, _w: DataWriterAsync<()>, _s: PublicationMatchedStatus) { self.push("PM") }
-    async fn on_subscription_matched(&mut self, _r: DataReaderAsync<()>, _s: SubscriptionMatchedStatus) { self.push("SM") }
-}
-fn kind_of(k: &str) -> Option<StatusKind> {
-    Some(match k {
-        "IT" => StatusKind::InconsistentTopic,
-        "ODM" => StatusKind::OfferedDeadlineMissed,
-        "RDM" => StatusKind::RequestedDeadlineMissed,
-        "OIQ" => StatusKind::OfferedIncompatibleQos,
-        "RIQ" => StatusKind::RequestedIncompatibleQos,
-        "SL" => StatusKind::SampleLost,
-        "SR" => StatusKind::SampleRejected,
-        "DOR" => StatusKind::DataOnReaders,
-        "DA" => StatusKind::DataAvailable,
-        "LL" => StatusKind::LivelinessLost,
-        "LC" => StatusKind::LivelinessChanged,
-        "PM" => StatusKind::PublicationMatched,
-        "SM" => StatusKind::SubscriptionMatched,
-        _ => return None,
-    })
-}
-/// (install listener?, mask) from the `l=` / `m=` tokens
-fn old_prefix(tokens: &[&str]) -> &'static str {
-    if tokens.iter().any(|t| *t == "old=1") { "OLD" } else { "" }
-}
-fn lm(tokens: &[&str]) -> (bool, Vec<StatusKind>) {
-    let mut l = false;
-    let mut m = vec![];
-    for t in tokens {
-        if let Some(v) = t.strip_prefix("l=") {
-            l = v == "1";
-        }
-        if let Some(v) = t.strip_prefix("m=") {
-            m = v.split(',').filter_map(kind_of).collect();
-        }
-    }
-    (l, m)
 }
 
 fn err_code(e: &DdsError) -> i32 {
@@ -279,7 +218,6 @@ struct World {
     readers: Vec<DataReaderAsync<KeyedData>>,
     rules: Vec<Rule>,
     sent_mark: usize,
-    log: Log,
 }
 
 const BUDGET: i64 = 2_000_000_000;
@@ -338,9 +276,7 @@ impl World {
             }
             "P" => {
                 let f = &self.factory;
-                let (l, m) = lm(&t[1..]);
-                let rec = if l { Some(Rec { log: self.log.clone(), label: format!("{}P{}", old_prefix(&t[1..]), self.parts.len()) }) } else { None };
-                let r = self.sim.run(f.create_participant(n(1) as i32, QosKind::Default, rec, &m), BUDGET);
+                let r = self.sim.run(f.create_participant(n(1) as i32, QosKind::Default, None::<()>, &[]), BUDGET);
                 self.sim.settle();
                 match r {
                     Ok(Ok(p)) => {
@@ -351,16 +287,10 @@ impl World {
                     Err(_) => "P STUCK".into(),
                 }
             }
-            "T" | "T2" => {
+            "T" => {
                 let p = &self.parts[u(1)];
                 let name = t.get(2).copied().unwrap_or("topic");
-                let (l, m) = lm(&t[1..]);
-                let rec = if l { Some(Rec { log: self.log.clone(), label: format!("{}T{}", old_prefix(&t[1..]), self.topics.len()) }) } else { None };
-                let r = if t[0] == "T" {
-                    self.sim.run(p.create_topic::<KeyedData>(name, "KeyedData", QosKind::Default, rec, &m), BUDGET)
-                } else {
-                    self.sim.run(p.create_topic::<OtherData>(name, "KeyedData", QosKind::Default, rec, &m), BUDGET)
-                };
+                let r = self.sim.run(p.create_topic::<KeyedData>(name, "KeyedData", QosKind::Default, None::<()>, &[]), BUDGET);
                 self.sim.settle();
                 match r {
                     Ok(Ok(x)) => {
@@ -373,9 +303,7 @@ impl World {
             }
             "PUB" => {
                 let p = &self.parts[u(1)];
-                let (l, m) = lm(&t[1..]);
-                let rec = if l { Some(Rec { log: self.log.clone(), label: format!("{}PUB{}", old_prefix(&t[1..]), self.pubs.len()) }) } else { None };
-                let r = self.sim.run(p.create_publisher(QosKind::Default, rec, &m), BUDGET);
+                let r = self.sim.run(p.create_publisher(QosKind::Default, None::<()>, &[]), BUDGET);
                 self.sim.settle();
                 match r {
                     Ok(Ok(x)) => {
@@ -388,9 +316,7 @@ impl World {
             }
             "SUB" => {
                 let p = &self.parts[u(1)];
-                let (l, m) = lm(&t[1..]);
-                let rec = if l { Some(Rec { log: self.log.clone(), label: format!("{}SUB{}", old_prefix(&t[1..]), self.subs.len()) }) } else { None };
-                let r = self.sim.run(p.create_subscriber(QosKind::Default, rec, &m), BUDGET);
+                let r = self.sim.run(p.create_subscriber(QosKind::Default, None::<()>, &[]), BUDGET);
                 self.sim.settle();
                 match r {
                     Ok(Ok(x)) => {
@@ -418,9 +344,7 @@ impl World {
                 q.ownership_strength.value = g("str", 0) as i32;
                 let pb = &self.pubs[u(1)];
                 let tp = &self.topics[u(2)];
-                let (l, m) = lm(&t[1..]);
-                let rec = if l { Some(Rec { log: self.log.clone(), label: format!("{}W{}", old_prefix(&t[1..]), self.writers.len()) }) } else { None };
-                let r = self.sim.run(pb.create_datawriter::<KeyedData>(tp, QosKind::Specific(q), rec, &m), BUDGET);
+                let r = self.sim.run(pb.create_datawriter::<KeyedData>(tp, QosKind::Specific(q), None::<()>, &[]), BUDGET);
                 self.sim.settle();
                 match r {
                     Ok(Ok(x)) => {
@@ -447,9 +371,7 @@ impl World {
                 q.destination_order.kind = if g("ord", 0) == 1 { DestinationOrderQosPolicyKind::BySourceTimestamp } else { DestinationOrderQosPolicyKind::ByReceptionTimestamp };
                 let sb = &self.subs[u(1)];
                 let tp = &self.topics[u(2)];
-                let (l, m) = lm(&t[1..]);
-                let rec = if l { Some(Rec { log: self.log.clone(), label: format!("{}R{}", old_prefix(&t[1..]), self.readers.len()) }) } else { None };
-                let r = self.sim.run(sb.create_datareader::<KeyedData>(tp, QosKind::Specific(q), rec, &m), BUDGET);
+                let r = self.sim.run(sb.create_datareader::<KeyedData>(tp, QosKind::Specific(q), None::<()>, &[]), BUDGET);
                 self.sim.settle();
                 match r {
                     Ok(Ok(x)) => {
@@ -507,115 +429,6 @@ impl World {
                     Ok(Err(e)) => format!("{} E{}", t[0], err_code(&e)),
                     Err(_) => format!("{} STUCK", t[0]),
                 }
-            }
-            "ev" => {
-                self.sim.settle();
-                let mut counts: BTreeMap<(String, &'static str), usize> = BTreeMap::new();
-                for e in self.log.lock().unwrap().drain(..) {
-                    *counts.entry(e).or_insert(0) += 1;
-                }
-                let mut s = String::from("ev");
-                for ((l, k), c) in counts {
-                    s += &format!(" {}:{}:{}", l, k, c);
-                }
-                s
-            }
-            "SL" => {
-                // set_listener after creation: SL <W|R|PUB|SUB|P> <idx> l= m=   (the new listener is labelled like
-                // one installed at creation; listeners installed at creation of an entity that is re-configured
-                // should be created with the scenario flag old=1 so that they are labelled OLD<label>)
-                let (l, m) = lm(&t[1..]);
-                let i = u(2);
-                let rec = |label: String| if l { Some(Rec { log: self.log.clone(), label }) } else { None };
-                let r = match t[1] {
-                    "W" => self.sim.run(self.writers[i].set_listener(rec(format!("W{}", i)), &m), BUDGET),
-                    "R" => self.sim.run(self.readers[i].set_listener(rec(format!("R{}", i)), &m), BUDGET),
-                    "PUB" => self.sim.run(self.pubs[i].set_listener(rec(format!("PUB{}", i)), &m), BUDGET),
-                    "SUB" => self.sim.run(self.subs[i].set_listener(rec(format!("SUB{}", i)), &m), BUDGET),
-                    _ => self.sim.run(self.parts[i].set_listener(rec(format!("P{}", i)), &m), BUDGET),
-                };
-                self.sim.settle();
-                match r {
-                    Ok(x) => format!("SL {}", rc(&x)),
-                    Err(_) => "SL STUCK".into(),
-                }
-            }
-            "Q" => {
-                // set_qos after creation: Q W <idx> lb=<ns> (latency budget) | Q R <idx> dl=<ns> (deadline)
-                let m = kv(&t[3..]);
-                let i = u(2);
-                let r = if t[1] == "W" {
-                    let w = &self.writers[i];
-                    match self.sim.run(w.get_qos(), BUDGET) {
-                        Ok(Ok(mut q)) => {
-                            if let Some(v) = m.get("lb") {
-                                q.latency_budget.duration = dk(*v);
-                            }
-                            if let Some(v) = m.get("dl") {
-                                q.deadline.period = dk(*v);
-                            }
-                            self.sim.run(w.set_qos(QosKind::Specific(q)), BUDGET)
-                        }
-                        Ok(Err(e)) => Ok(Err(e)),
-                        Err(e) => Err(e),
-                    }
-                } else {
-                    let rd = &self.readers[i];
-                    match self.sim.run(rd.get_qos(), BUDGET) {
-                        Ok(Ok(mut q)) => {
-                            if let Some(v) = m.get("lb") {
-                                q.latency_budget.duration = dk(*v);
-                            }
-                            if let Some(v) = m.get("dl") {
-                                q.deadline.period = dk(*v);
-                            }
-                            self.sim.run(rd.set_qos(QosKind::Specific(q)), BUDGET)
-                        }
-                        Ok(Err(e)) => Ok(Err(e)),
-                        Err(e) => Err(e),
-                    }
-                };
-                self.sim.settle();
-                match r {
-                    Ok(x) => format!("Q {}", rc(&x)),
-                    Err(_) => "Q STUCK".into(),
-                }
-            }
-            "netw" => {
-                // deliver ONLY the in-flight datagrams that carry a DATA of the writer with entity key <key>
-                // (256 = SPDP participant writer, 3 / 4 = SEDP publications / subscriptions writer); the
-                // others stay in flight: datagrams may overtake each other
-                let key = n(1) as u32;
-                let mut k = 0;
-                self.sim.settle();
-                loop {
-                    let next = {
-                        let mut q = self.sim.shared.inflight.lock().unwrap();
-                        match q.iter().position(|p| !p.held && summarize(&p.bytes).iter().any(|x| x.0 == "DATA" && x.1 == key)) {
-                            Some(i) => Some(q.remove(i)),
-                            None => None,
-                        }
-                    };
-                    let Some(p) = next else { break };
-                    self.sim.deliver_packet(&p);
-                    k += 1;
-                    if k > 10_000 {
-                        break;
-                    }
-                }
-                format!("netw {}", k)
-            }
-            "jump" => {
-                // move the simulated clock WITHOUT stopping at the timer deadlines on the way, then let the
-                // worker run once.  (`adv` stops exactly at the instant now - last_write == deadline period, where
-                // time_until_missed_*_deadline is 0 but the check uses a strict `>`: with a frozen clock the
-                // worker then spins on delay(0) forever.)
-                {
-                    let mut g = self.sim.shared.now_ns.lock().unwrap();
-                    *g += n(1);
-                }
-                self.sim.settle();
-                "jump".into()
             }
             "adv" => {
                 self.sim.advance(n(1));
@@ -756,7 +569,8 @@ impl World {
     }
 }
 
-fn run_scenario(line: &str) -> String {
+
+fn new_world() -> World {
     let sim = Sim::new(1344);
     let factory = DomainParticipantFactoryAsync::new(
         SimRuntime(sim.shared.clone()),
@@ -765,59 +579,166 @@ fn run_scenario(line: &str) -> String {
         SimTransport(sim.shared.clone()),
         Default::default(),
     );
-    let mut w = World {
-        sim,
-        factory,
-        parts: vec![],
-        topics: vec![],
-        pubs: vec![],
-        subs: vec![],
-        writers: vec![],
-        readers: vec![],
-        rules: vec![],
-        sent_mark: 0,
-        log: Arc::new(Mutex::new(vec![])),
-    };
-    let mut out = vec![];
-    for op in line.split(';') {
-        let op = op.trim();
-        if op.is_empty() {
-            continue;
-        }
-        out.push(w.op(op));
+    World { sim, factory, parts: vec![], topics: vec![], pubs: vec![], subs: vec![], writers: vec![], readers: vec![], rules: vec![], sent_mark: 0 }
+}
+
+fn say(s: &str) {
+    // one line in pieces: every piece is flushed so that the parent sees how far the child got
+    print!("{}", s);
+    std::io::stdout().flush().unwrap();
+}
+
+const VICTIM: usize = 1;
+/// wall-clock deadline (ms since start) of the datagram being handled; 0 = none
+static DEADLINE_MS: AtomicUsize = AtomicUsize::new(0);
+
+fn run_case(line: &str) {
+    let (knobs, dgrams) = line.split_once('|').unwrap_or((line, ""));
+    let kt: Vec<&str> = knobs.split_whitespace().collect();
+    let m = kv(&kt);
+    let g = |k: &str, d: i64| m.get(k).copied().unwrap_or(d);
+    let mut w = new_world();
+    *w.sim.shared.fragment_size.lock().unwrap() = g("frag", 1344) as usize;
+    let rel = g("rel", 1);
+    let mut setup: Vec<String> = vec![];
+    for p in 0..3 {
+        setup.push("P 0".into());
+        let _ = p;
     }
-    out.join(" | ")
+    for p in 0..3 {
+        setup.push(format!("T {} t", p));
+        setup.push(format!("PUB {}", p));
+        setup.push(format!("SUB {}", p));
+    }
+    for p in 0..3 {
+        setup.push(format!("W {} {} rel=1", p, p));
+        setup.push(format!("R {} {} rel={}", p, p, if p == VICTIM { rel } else { 1 }));
+    }
+    setup.push("net".into());
+    setup.push("adv 100000000".into());
+    setup.push("net".into());
+    for (wr, n) in [(0, g("a", 1)), (1, g("m", 1)), (2, g("j", 0))] {
+        for i in 0..n {
+            setup.push(format!("w {} {} {} {}", wr, 1 + i % 3, 8 + 4 * i, 7 * wr + i));
+        }
+    }
+    setup.push("net".into());
+    setup.push("adv 300000000".into());
+    setup.push("net".into());
+    setup.push("t 0 0".into());
+    setup.push("t 1 0".into());
+    setup.push("t 2 0".into());
+    for op in &setup {
+        let r = w.op(op);
+        if r.contains("STUCK") || r.contains(" E") {
+            say(&format!("SETUP-FAILED {} -> {} | END\n", op, r));
+            return;
+        }
+    }
+    // the traffic of the setup phase
+    {
+        let log = w.sim.shared.sent_log.lock().unwrap();
+        let cap = g("cap", 0) == 1;
+        let mut s = String::from("LOG");
+        for (from, to, meta, bytes) in log.iter() {
+            if *meta && !cap {
+                continue;
+            }
+            s += &format!(" {}>{}{}:{}", from, to, if *meta { "m" } else { "" }, vh::util::to_hex(bytes));
+        }
+        say(&s);
+        if cap {
+            say(" | END\n");
+            return;
+        }
+    }
+    let mut mark = w.sim.shared.sent_log.lock().unwrap().len();
+    let limit_ms = g("lim", 6000) as usize;
+    let start = std::time::Instant::now();
+    std::thread::spawn(move || loop {
+        std::thread::sleep(std::time::Duration::from_millis(20));
+        let d = DEADLINE_MS.load(Relaxed);
+        if d != 0 && start.elapsed().as_millis() as usize > d {
+            use std::io::Write;
+            use std::os::fd::FromRawFd;
+            let mut f = unsafe { std::fs::File::from_raw_fd(1) };
+            let _ = f.write_all(b"HANG\n");
+            std::process::abort();
+        }
+    });
+    for (k, h) in dgrams.split_whitespace().enumerate() {
+        let bytes = vh::util::hex(h);
+        say(&format!(" | D{} ", k));
+        let live0 = LIVE.load(Relaxed);
+        let total0 = TOTAL.load(Relaxed);
+        PEAK.store(live0, Relaxed);
+        let t0 = std::time::Instant::now();
+        let p = Packet { id: 0, from: 999, to: VICTIM, meta: false, bytes, held: false };
+        DEADLINE_MS.store(start.elapsed().as_millis() as usize + limit_ms, Relaxed);
+        w.sim.deliver_packet(&p);
+        DEADLINE_MS.store(0, Relaxed);
+        let us = t0.elapsed().as_micros();
+        let total = TOTAL.load(Relaxed) - total0;
+        let peak = PEAK.load(Relaxed).saturating_sub(live0);
+        // what the victim sent in reaction; nothing of it is delivered
+        w.sim.shared.inflight.lock().unwrap().clear();
+        let log = w.sim.shared.sent_log.lock().unwrap();
+        let mut outs: Vec<String> = vec![];
+        for (from, _to, meta, bytes) in log[mark..].iter() {
+            if *from == VICTIM && !*meta {
+                outs.push(vh::util::to_hex(bytes));
+            }
+        }
+        mark = log.len();
+        drop(log);
+        say(&format!("OK {} {} {} {}", total, peak, us, if outs.is_empty() { "-".to_string() } else { outs.join(",") }));
+    }
+    if g("probe", 1) == 1 {
+        // liveness: healthy writer -> victim reader, victim writer -> healthy reader, one API call
+        // on the victim, and the worker still asks the timer for its next wake-up
+        say(" | PROBE ");
+        let d0 = w.sim.shared.delays.lock().unwrap().len();
+        let mut res = vec![];
+        let r1 = w.op("w 0 9 33 4242");
+        for _ in 0..6 {
+            w.op("net");
+            w.op("adv 250000000");
+        }
+        w.op("net");
+        let t1 = w.op("t 1 0");
+        res.push(format!("hv={}", (r1 == "w 0" && t1.contains(" 9 33 ")) as u8));
+        let r2 = w.op("w 1 9 35 4343");
+        for _ in 0..6 {
+            w.op("net");
+            w.op("adv 250000000");
+        }
+        w.op("net");
+        let t0 = w.op("t 0 0");
+        res.push(format!("vh={}", (r2 == "w 0" && t0.contains(" 9 35 ")) as u8));
+        let a1 = w.op("pm 1");
+        let a2 = w.op("sm 1");
+        res.push(format!("api={}", (a1.starts_with("pm ") && !a1.contains('E') && !a1.contains("STUCK") && a2.starts_with("sm ") && !a2.contains('E') && !a2.contains("STUCK")) as u8));
+        let d1 = w.sim.shared.delays.lock().unwrap().len();
+        res.push(format!("wake={}", (d1 > d0 + 10) as u8));
+        say(&res.join(" "));
+    }
+    say(" | END\n");
 }
 
 fn main() {
     let args: Vec<String> = std::env::args().collect();
     if args.get(1).map(|s| s.as_str()) == Some("--one") {
-        // child: one scenario on stdin
         let mut line = String::new();
         std::io::stdin().lock().read_line(&mut line).unwrap();
-        // watchdog: a scenario that runs away (time or memory) ends as `HANG`
-        std::thread::spawn(|| {
-            let t0 = std::time::Instant::now();
-            loop {
-                std::thread::sleep(std::time::Duration::from_millis(100));
-                let rss_pages = std::fs::read_to_string("/proc/self/statm")
-                    .ok()
-                    .and_then(|s| s.split_whitespace().nth(1).and_then(|x| x.parse::<u64>().ok()))
-                    .unwrap_or(0);
-                if t0.elapsed().as_secs() > 90 || rss_pages > 400_000 {
-                    println!("HANG");
-                    std::process::exit(4);
-                }
-            }
-        });
         std::panic::set_hook(Box::new(|info| {
             let s = info.location().map(|l| format!("{}:{}", l.file(), l.line())).unwrap_or_default();
             println!("PANIC {}", s);
             std::process::exit(3);
         }));
-        println!("{}", run_scenario(line.trim()));
+        run_case(line.trim());
         std::process::exit(0);
     }
+    let limit: u64 = std::env::var("C06_LIMIT_S").ok().and_then(|s| s.parse().ok()).unwrap_or(120);
     let exe = std::env::current_exe().unwrap();
     let stdin = std::io::stdin();
     let stdout = std::io::stdout();
@@ -835,10 +756,42 @@ fn main() {
             .spawn()
             .unwrap();
         child.stdin.take().unwrap().write_all(format!("{}\n", line).as_bytes()).unwrap();
-        let o = child.wait_with_output().unwrap();
-        let s = String::from_utf8_lossy(&o.stdout);
-        let last = s.lines().last().unwrap_or("ABORT").to_string();
-        writeln!(out, "{}", if last.is_empty() { "ABORT".to_string() } else { last }).unwrap();
+        let mut so = child.stdout.take().unwrap();
+        let reader = std::thread::spawn(move || {
+            let mut s = String::new();
+            use std::io::Read;
+            let _ = so.read_to_string(&mut s);
+            s
+        });
+        let t0 = std::time::Instant::now();
+        let mut hung = false;
+        let status = loop {
+            match child.try_wait().unwrap() {
+                Some(st) => break Some(st),
+                None => {
+                    if t0.elapsed().as_secs() >= limit {
+                        let _ = child.kill();
+                        let _ = child.wait();
+                        hung = true;
+                        break None;
+                    }
+                    std::thread::sleep(std::time::Duration::from_millis(2));
+                }
+            }
+        };
+        let s = reader.join().unwrap_or_default();
+        let mut flat = s.replace('\n', " ").trim().to_string();
+        if hung {
+            flat += " HANG";
+        } else if let Some(st) = status {
+            if !st.success() && !flat.contains("PANIC ") && !flat.contains("OOM ") && !flat.ends_with("HANG") {
+                flat += &format!(" ABORT {:?}", st.code());
+            }
+        }
+        if flat.is_empty() {
+            flat = "ABORT".into();
+        }
+        writeln!(out, "{}", flat).unwrap();
         out.flush().unwrap();
     }
 }
